@@ -401,3 +401,105 @@ template <class V> static FX_NOINLINE void g_horizontal(fx::Ctx& fx) {
 }
 
 } // namespace c08
+
+// ---------------------------------------------------------------------------------------------------------------
+// complex vector types (split real/imaginary registers): lane = one std::complex<R>
+// ---------------------------------------------------------------------------------------------------------------
+namespace c08 {
+template <class R> static std::vector<std::complex<R>> calpha() {
+    std::vector<std::complex<R>> v; const int re[] = {0, 1, -1, 2, -3, 5, 7, -4}; const int im[] = {0, 1, -2, 3, 0, -5, 4, -1};
+    for (int i = 0; i < 8; ++i) for (int k = 0; k < 8; k += (i % 2 ? 3 : 2)) v.push_back(std::complex<R>((R)re[i], (R)im[(k + i) % 8]));
+    return v;
+}
+template <class V> static FX_NOINLINE void g_complex(fx::Ctx& fx) {
+    using Z = typename V::scalar_value_type; using R = typename Z::value_type; constexpr size_t N = V::Size;
+    const std::vector<Z> al = calpha<R>(); const size_t L = al.size();
+    fx::Arena& ar = fx.arena[0]; ar.paint();
+    const size_t bytes = N * sizeof(Z);
+    Z a[N], b[N], c[N], e[N], o[N];
+    auto getl = [&](const V& v, Z* out) { v.store(out, false); };
+    // ---- load / store / broadcast
+    for (size_t mis = 0; mis < 64 + 2 * alignof(R); mis += alignof(R)) {
+        const int where = mis < 64 ? 2 : (mis == 64 ? 0 : 1);
+        unsigned char* src = where == 0 ? ar.hi - bytes : where == 1 ? ar.lo : ar.place_mid(bytes, 64, mis);
+        Z* sp = (Z*)src;
+        for (size_t i = 0; i < N; ++i) a[i] = al[(mis + i * 3 + where) % L];
+        memcpy((void*)sp, a, bytes);
+        fx.pt("unaligned,mis=%lld,where=%lld", (long long)(mis % 64), (long long)where);
+        V v; bool ok = fx.run([&] { V t(sp, false); v = t; fx::escape(&v); });
+        if (ok) { getl(v, o); fx.eq(o, a, N, (const Z*)nullptr, "V(p,false)"); }
+        ok = fx.run([&] { v.load(sp, false); }); if (ok) { getl(v, o); fx.eq(o, a, N, (const Z*)nullptr, "load(p,false)"); }
+        memset((void*)sp, fx::Arena::CAN, bytes);
+        ok = fx.run([&] { V t(a, false); t.store(sp, false); });
+        if (ok) { memcpy((void*)o, sp, bytes); fx.eq(o, a, N, (const Z*)nullptr, "store(p,false)"); fx.frame(0, sp, bytes, "store wrote outside its lanes"); }
+        memset((void*)sp, fx::Arena::CAN, bytes);
+    }
+    for (size_t k = 0; k < 4; ++k) {   // aligned forms, last slot flush with the guard page
+        unsigned char* src = k == 0 ? ar.hi - bytes : ar.hi - (k + 1) * (bytes < 64 ? 64 : bytes);
+        if (((uintptr_t)src) % (bytes < 64 ? bytes : 64)) continue;
+        Z* sp = (Z*)src; for (size_t i = 0; i < N; ++i) a[i] = al[(k * 5 + i) % L]; memcpy((void*)sp, a, bytes);
+        fx.pt("aligned,slot=%lld", (long long)k);
+        V v; bool ok = fx.run([&] { V t(sp, true); v = t; fx::escape(&v); }); if (ok) { getl(v, o); fx.eq(o, a, N, (const Z*)nullptr, "V(p,true)"); }
+        memset((void*)sp, fx::Arena::CAN, bytes);
+        ok = fx.run([&] { V t(a, false); t.store(sp, true); }); if (ok) { memcpy((void*)o, sp, bytes); fx.eq(o, a, N, (const Z*)nullptr, "store(p,true)"); }
+        memset((void*)sp, fx::Arena::CAN, bytes);
+    }
+    for (size_t p = 0; p < L; ++p) { fx.pt("broadcast,p=%lld", (long long)p); for (size_t i = 0; i < N; ++i) e[i] = al[p];
+        { V v(al[p]); getl(v, o); fx.eq(o, e, N, (const Z*)nullptr, "V(z)"); } { V v; v.set(al[p]); getl(v, o); fx.eq(o, e, N, (const Z*)nullptr, "set(z)"); }
+        { V v(a, false); for (size_t i = 0; i < N; ++i) o[i] = v[i]; fx.eq(o, a, N, (const Z*)nullptr, "operator[]"); } }
+    // ---- arithmetic on integer-valued complex numbers: exact
+    const long double u = fxv::unit_roundoff<R>::v();
+    for (size_t p = 0; p < L; ++p) for (size_t q = 0; q < L; ++q) {
+        for (size_t i = 0; i < N; ++i) { a[i] = al[(p + i) % L]; b[i] = al[(q + 3 * i) % L]; c[i] = al[(p + q + 5 * i) % L]; }
+        const V va(a, false), vb(b, false), vc(c, false); const Z s = b[0];
+        fx.pt("p=%lld,q=%lld", (long long)p, (long long)q);
+#define FX_CB(NAME, EXPR, REF) { for (size_t i = 0; i < N; ++i) e[i] = REF; V r = (EXPR); getl(r, o); fx.eq(o, e, N, (const Z*)nullptr, NAME); }
+        FX_CB("v+v", va + vb, a[i] + b[i]) FX_CB("v-v", va - vb, a[i] - b[i]) FX_CB("v*v", va * vb, Z(a[i].real() * b[i].real() - a[i].imag() * b[i].imag(), a[i].real() * b[i].imag() + a[i].imag() * b[i].real()))
+        FX_CB("v+s", va + s, a[i] + s) FX_CB("v-s", va - s, a[i] - s) FX_CB("v*s", va * s, Z(a[i].real() * s.real() - a[i].imag() * s.imag(), a[i].real() * s.imag() + a[i].imag() * s.real()))
+        FX_CB("fmadd", fmadd(va, vb, vc), Z(a[i].real() * b[i].real() - a[i].imag() * b[i].imag() + c[i].real(), a[i].real() * b[i].imag() + a[i].imag() * b[i].real() + c[i].imag()))
+        { for (size_t i = 0; i < N; ++i) e[i] = a[i] + b[i]; V r = va; r += vb; getl(r, o); fx.eq(o, e, N, (const Z*)nullptr, "v+=v"); }
+        { for (size_t i = 0; i < N; ++i) e[i] = a[i] - b[i]; V r = va; r -= vb; getl(r, o); fx.eq(o, e, N, (const Z*)nullptr, "v-=v"); }
+        { for (size_t i = 0; i < N; ++i) e[i] = Z(a[i].real() * b[i].real() - a[i].imag() * b[i].imag(), a[i].real() * b[i].imag() + a[i].imag() * b[i].real()); V r = va; r *= vb; getl(r, o); fx.eq(o, e, N, (const Z*)nullptr, "v*=v"); }
+#undef FX_CB
+        // division: non-zero divisors, judged against the exact quotient with a modulus-relative bound
+        { bool nz = true; for (size_t i = 0; i < N; ++i) if (b[i] == Z(0)) nz = false;
+          if (nz) { V r = va / vb; getl(r, o); bool ok = true; std::string d;
+            for (size_t i = 0; i < N; ++i) { long double br = b[i].real(), bi = b[i].imag(), ar_ = a[i].real(), ai = a[i].imag(), den = br * br + bi * bi;
+                long double er = (ar_ * br + ai * bi) / den, ei = (ai * br - ar_ * bi) / den, mod = sqrtl(er * er + ei * ei);
+                long double dr = fabsl((long double)o[i].real() - er), di = fabsl((long double)o[i].imag() - ei);
+                if (!(dr <= 16 * u * mod + 1e-300L) || !(di <= 16 * u * mod + 1e-300L)) { ok = false; d = "v/v lane " + std::to_string(i) + " got " + fx::vstr(o[i]); break; } }
+            fx.verdict(ok, fx::hash_bytes(a, sizeof a) ^ fx::hash_bytes(b, sizeof b), true, d); } }
+        // vertical real-valued results and horizontals
+        { using VR = decltype(va.real()); R ro[N], re_[N];
+          { VR r = va.real(); r.store(ro, false); for (size_t i = 0; i < N; ++i) re_[i] = a[i].real(); fx.eq(ro, re_, N, (const R*)nullptr, "real()"); }
+          { VR r = va.imag(); r.store(ro, false); for (size_t i = 0; i < N; ++i) re_[i] = a[i].imag(); fx.eq(ro, re_, N, (const R*)nullptr, "imag()"); }
+          { VR r = va.norm(); r.store(ro, false); for (size_t i = 0; i < N; ++i) re_[i] = a[i].real() * a[i].real() + a[i].imag() * a[i].imag(); fx.eq(ro, re_, N, (const R*)nullptr, "norm()"); }
+          { VR r = va.magnitude(); r.store(ro, false); long double ex[N], bd[N]; for (size_t i = 0; i < N; ++i) { ex[i] = sqrtl((long double)(a[i].real() * a[i].real() + a[i].imag() * a[i].imag())); bd[i] = 2 * u * ex[i]; }
+            fx.tol(ro, ex, bd, N, "magnitude()"); } }
+        { Z s0(0), d0(0); for (size_t i = 0; i < N; ++i) { s0 += a[i]; d0 += Z(a[i].real() * b[i].real() - a[i].imag() * b[i].imag(), a[i].real() * b[i].imag() + a[i].imag() * b[i].real()); }
+          Z g = va.sum(); fx.eq(&g, &s0, 1, (const Z*)nullptr, "sum()"); g = va.dot(vb); fx.eq(&g, &d0, 1, (const Z*)nullptr, "dot()"); }
+        if (q == 0) { for (size_t i = 0; i < N; ++i) e[i] = a[N - 1 - i]; V r = va.reverse(); getl(r, o); fx.eq(o, e, N, (const Z*)nullptr, "reverse()"); }
+    }
+    // ---- masked member load / store: all 2^N masks, bit k <-> complex lane k
+    for (unsigned long long m = 0; m < (1ull << N); ++m) {
+        int top = -1; for (int l = (int)N - 1; l >= 0; --l) if (m >> l & 1) { top = l; break; }
+        for (size_t i = 0; i < N; ++i) { a[i] = Z((R)(3 + (long long)i), (R)(-(long long)(i + 1) - (long long)(m % 3))); c[i] = Z((R)(100 + (long long)i), (R)(50 + (long long)i)); }
+        const size_t live = (size_t)(top + 1) * sizeof(Z);
+        Z* sp = (Z*)(ar.hi - live); if (live) memcpy((void*)sp, a, live);
+        fx.pt("mask_load,mask=%lld", (long long)m);
+        V v(Z(0)); bool ok = fx.run([&] { v.mask_load(sp, (unsigned long long)m, false); fx::escape(&v); });
+        if (ok) { getl(v, o); for (size_t i = 0; i < N; ++i) e[i] = (m >> i & 1) ? a[i] : o[i]; fx.eq(o, e, N, (const Z*)nullptr, "mask_load enabled lanes"); }
+        if (live) memset((void*)sp, fx::Arena::CAN, live);
+        Z* dp = (Z*)ar.place_mid(bytes, 64, 0); memcpy((void*)dp, c, bytes);
+        fx.pt("mask_store,mask=%lld", (long long)m);
+        ok = fx.run([&] { V t(a, false); t.mask_store(dp, (unsigned long long)m, false); });
+        if (ok) { memcpy((void*)o, dp, bytes); for (size_t i = 0; i < N; ++i) e[i] = (m >> i & 1) ? a[i] : c[i]; fx.eq(o, e, N, c, "mask_store"); fx.frame(0, dp, bytes, "mask_store wrote outside the vector"); }
+        memset((void*)dp, fx::Arena::CAN, bytes);
+        if (live) { Z* ep = (Z*)(ar.hi - live); memcpy((void*)ep, c, live);
+            fx.pt("mask_store_guard,mask=%lld", (long long)m);
+            ok = fx.run([&] { V t(a, false); t.mask_store(ep, (unsigned long long)m, false); });
+            if (ok) { const size_t k = (size_t)(top + 1); memcpy((void*)o, ep, live); for (size_t i = 0; i < k; ++i) e[i] = (m >> i & 1) ? a[i] : c[i]; fx.eq(o, e, k, c, "mask_store (guarded)"); }
+            memset((void*)ep, fx::Arena::CAN, live); }
+    }
+}
+} // namespace c08
